@@ -45,7 +45,8 @@ func C05alias(p *load.Program, run *report.Run) {
 					scratch = append(scratch, obj)
 				}
 			case *types.Pointer:
-				if isBigInt(obj.Type()) {
+				// the live set: *big.Int, or a set type of the module queried through a membership method
+				if _, named := t.Elem().(*types.Named); named {
 					liveP = obj
 				}
 			case *types.Basic:
@@ -542,13 +543,28 @@ func (e *aliasEval) expr(x ast.Expr) any {
 				return e.bad("builtin %s not modelled", id.Name)
 			}
 		}
-		if sel, ok := t.Fun.(*ast.SelectorExpr); ok && sel.Sel.Name == "Bit" && len(t.Args) == 1 {
+		if sel, ok := t.Fun.(*ast.SelectorExpr); ok && len(t.Args) == 1 {
 			if id, ok := ast.Unparen(sel.X).(*ast.Ident); ok && e.info.ObjectOf(id) == e.liveP {
+				// a membership query of the live set: Bit of a big.Int (0/1), or a one-argument method of a set
+				// type that answers with a bool (its name is the set's contract: Contains, Has, Test)
 				k, ok := e.expr(t.Args[0]).(int)
 				if !ok {
 					return e.bad("bit index not decided")
 				}
-				if e.live&(1<<k) != 0 {
+				in := e.live&(1<<k) != 0
+				if tv, ok := e.info.Types[t]; ok {
+					if b, isBasic := tv.Type.Underlying().(*types.Basic); isBasic && b.Kind() == types.Bool {
+						switch sel.Sel.Name {
+						case "Contains", "Has", "Test", "IsSet", "Member":
+							return in
+						}
+						return e.bad("query %s of the live set not modelled", sel.Sel.Name)
+					}
+				}
+				if sel.Sel.Name != "Bit" {
+					return e.bad("query %s of the live set not modelled", sel.Sel.Name)
+				}
+				if in {
 					return 1
 				}
 				return 0
